@@ -60,7 +60,8 @@ class ChunkParser:
                 if self.last:
                     self.state = chunkParserStates.COMPLETE
             elif not self.last:
-                self.size = int(line, 16)
+                # Ignore chunk extensions, if any
+                self.size = int(line.split(b';', 1)[0], 16)
                 self.state = chunkParserStates.WAITING_FOR_DATA
             # else: trailer field after the last chunk, ignored
         elif self.state == chunkParserStates.WAITING_FOR_DATA:
